@@ -53,7 +53,7 @@ def run(ctx):
         ctx.check(len(un) == 1 and un[0].ret_shape() == "StreamError::Undefined" and not fatal_in(prog, un[0]), "C07-a", h.key,
                   "transport-specific stream error -> Undefined, connection untouched", "Unknown leads to %s" % [p.ret_shape() for p in un], "")
         ce = rows.get("ConnectionErrorIncoming", [])
-        ctx.check(len(ce) == 1 and ce[0].ret_shape().startswith("StreamError::ConnectionError") and ce[0].has_call("set_conn_error_and_wake"), "C07-a",
+        ctx.check(len(ce) == 1 and ce[0].ret_shape().startswith("StreamError::ConnectionError") and ce[0].has_call("set_conn_error_and_wake", "set_conn_error"), "C07-a",
                   h.key, "only a connection-level transport error touches the cell", "ConnectionErrorIncoming leads to %s" % [p.ret_shape() for p in ce], "")
         ctx.check(set(rows) == {"StreamTerminated", "Unknown", "ConnectionErrorIncoming"}, "C07-a", h.key, "all variants tabled", "variants: %s" % sorted(rows), "")
     b = ru.need(ctx, "C07-a", "<h3::error::codes::Code as core::convert::From<u64>>::from")
